@@ -156,8 +156,18 @@ def build_graph(rng, kind, flavour):
         # more metadata / node objects than the default mix
         if rng.random() < 0.25:
             op = ('add_node', gen.name(), gen.vt(), gen.meta())
-        if n == 12:
-            GH.warm_caches(g, rng, 0.25)
+        if n == 12 or rng.random() < 0.12:
+            GH.warm_caches(g, rng, 0.3)          # derived views (skeleton included) looked at BETWEEN the mutations
+        GH.apply_op(g, op)
+        ops.append(op)
+    if g.get_node_names() and rng.random() < 0.35:
+        # a derived view is looked at, then a node attribute is edited in place through its handle: the last word before serialising
+        GH.warm_caches(g, rng, 0.5)
+        try:
+            _ = g.skeleton.to_dict()
+        except Exception:  # noqa: BLE001
+            pass
+        op = ('set_attr', rng.choice(g.get_node_names()), None, None, None, gen.vt(), (gen.meta() or {}) if kind == 'Plain' and rng.random() < 0.5 else None)
         GH.apply_op(g, op)
         ops.append(op)
     return g, ops, gen, (gm or {})
